@@ -179,6 +179,18 @@ func parityIn(v ssa.Value, env map[*ssa.Parameter]int, depth int) int {
 			return p
 		}
 		return -1
+	case *ssa.Call:
+		// the length of a literal package-level table (never written after init: C09 R09.1)
+		if b, isB := x.Common().Value.(*ssa.Builtin); isB && b.Name() == "len" && len(x.Common().Args) == 1 {
+			if ld, isLd := x.Common().Args[0].(*ssa.UnOp); isLd && ld.Op == token.MUL {
+				if g, isG := ld.X.(*ssa.Global); isG {
+					if tv := globalTVal(g); tv != nil && tv.Kind == "list" {
+						return len(tv.L) % 2
+					}
+				}
+			}
+		}
+		return -1
 	case *ssa.BinOp:
 		switch x.Op {
 		case token.MUL:
@@ -691,36 +703,86 @@ func r03_6(c *Ctx, r *Report) {
 
 func r03_7(c *Ctx, r *Report) {
 	const rule = "R03.7"
-	r.rule(rule, "The term table is anchored on the civil year (shared with C01 R01.3) and built from all 31 keys: computeJieQi stores one Solar per JIE_QI_IN_USE key from the year table's Julian days, index by index.")
+	r.rule(rule, "The term table is anchored on the civil year (shared with C01 R01.3) and built from all 31 keys: computeJieQi, followed by the evaluator (its loop as a table over the iteration number, whichever way it runs), stores under JIE_QI_IN_USE[i] the moment built from the year table's i-th Julian day for every i, and the name list it builds holds the 31 names in the order of JIE_QI_IN_USE (the canonical order GetJieQiList hands out).")
 	fn := c.Fn(r, rule, "calendar.computeJieQi")
 	if fn == nil {
 		return
 	}
-	// table[name] = NewSolarFromJulianDay(julianDays[i]) with name = JIE_QI_IN_USE[i], same i
-	okk := false
-	for _, b := range fn.Blocks {
-		for _, ins := range b.Instrs {
-			mu, ok := ins.(*ssa.MapUpdate)
-			if !ok {
-				continue
+	// followed by the evaluator (the loop as a table over the iteration number): what is stored under which
+	// name, and what the name list holds in which order
+	inUse := c.tabStrs(r, rule, "calendar", "JIE_QI_IN_USE")
+	if len(inUse) > 0 {
+		var leaf leafX
+		leaf = func(fr *evalFrame, v ssa.Value) (interface{}, bool) {
+			if ld, ok := v.(*ssa.UnOp); ok && ld.Op == token.MUL {
+				if ia, ok := ld.X.(*ssa.IndexAddr); ok {
+					if x, ok := evalWith(fr, ia.X, leaf); ok {
+						if p, isP := x.(absPtr); isP && p.tag == "julian days" {
+							if iv, ok := evalWith(fr, ia.Index, leaf); ok {
+								if i, isI := iv.(int64); isI {
+									return float64(1000 + i), true
+								}
+							}
+							return nil, false
+						}
+					}
+				}
 			}
-			key, ok1 := mu.Key.(*ssa.UnOp)
-			val, ok2 := mu.Value.(*ssa.Call)
-			if !ok1 || !ok2 || val.Common().StaticCallee() == nil || fname(val.Common().StaticCallee()) != "calendar.NewSolarFromJulianDay" {
-				continue
+			call, ok := v.(*ssa.Call)
+			if !ok || call.Common().StaticCallee() == nil {
+				return nil, false
 			}
-			kia, ok1 := key.X.(*ssa.IndexAddr)
-			arg, ok2 := val.Common().Args[0].(*ssa.UnOp)
-			if !ok1 || !ok2 {
-				continue
+			switch fname(call.Common().StaticCallee()) {
+			case "calendar.(*LunarYear).GetJieQiJulianDays":
+				return absPtr{"julian days", false}, true
+			case "calendar.NewSolarFromJulianDay":
+				if x, ok := evalWith(fr, call.Common().Args[0], leaf); ok {
+					if f, isF := x.(float64); isF {
+						return absPtr{fmt.Sprintf("moment of Julian day #%d", int64(f)-1000), false}, true
+					}
+				}
+				return nil, false
 			}
-			via, ok := arg.X.(*ssa.IndexAddr)
-			if ok && kia.Index == via.Index && isLoadOfTable(kia.X, "calendar.JIE_QI_IN_USE") {
-				okk = true
+			if call.Common().StaticCallee().String() == "container/list.New" {
+				return absPtr{"list", false}, true
+			}
+			return nil, false
+		}
+		ev := &evaluator{leaf: leaf, inline: inlineLibrary}
+		var pushed []string
+		ev.collectList(&pushed, func(o interface{}, ok bool) string {
+			if s, isS := o.(string); ok && isS {
+				return s
+			}
+			return "?"
+		})
+		stored := map[string]string{}
+		var problems []string
+		ev.onMapUpdate = func(fr *evalFrame, mu *ssa.MapUpdate, k, v interface{}, ok bool) {
+			ks, isS := k.(string)
+			p, isP := v.(absPtr)
+			if !ok || !isS || !isP {
+				problems = append(problems, "a map store could not be read")
+				return
+			}
+			stored[ks] = p.tag
+		}
+		_, outcome := ev.run(fn, nil, nil, nil, nil)
+		if outcome != "return" {
+			problems = append(problems, "the function could not be followed: "+outcome+" "+ev.fail)
+		}
+		for i, name := range inUse {
+			if want := fmt.Sprintf("moment of Julian day #%d", i); stored[name] != want && len(problems) < 4 {
+				problems = append(problems, fmt.Sprintf("under %s: %q, expected the %s", name, stored[name], want))
 			}
 		}
+		if len(stored) != len(inUse) && len(problems) < 4 {
+			problems = append(problems, fmt.Sprintf("%d names stored, %d in JIE_QI_IN_USE", len(stored), len(inUse)))
+		}
+		r.check(len(problems) == 0, rule, "calendar.computeJieQi pairs key i with Julian day i", c.fnPos(fn), fmt.Sprintf("%d stores followed; deviations: %v", len(stored), headList(problems, 3)))
+		okList := equalStrs(pushed, inUse)
+		r.check(okList && outcome == "return", rule, "calendar.computeJieQi lists the term names in the canonical order of JIE_QI_IN_USE", c.fnPos(fn), fmt.Sprintf("%d names listed, first %v, last %v", len(pushed), headList(pushed, 2), tailList(pushed, 2)))
 	}
-	r.check(okk, rule, "calendar.computeJieQi pairs key i with Julian day i", c.fnPos(fn), "table[JIE_QI_IN_USE[i]] = NewSolarFromJulianDay(julianDays[i]) with one index")
 	anchoredOnCivilYear(c, r, rule)
 }
 
@@ -941,4 +1003,11 @@ func dependsOnParam(v ssa.Value, depth int) bool {
 		}
 	}
 	return false
+}
+
+func tailList(xs []string, n int) []string {
+	if len(xs) <= n {
+		return xs
+	}
+	return xs[len(xs)-n:]
 }
